@@ -16,6 +16,7 @@ import Glb.Driver.LogSys
 import Glb.Driver.Router
 import Glb.Driver.Store
 import Glb.Driver.Nano
+import Glb.Driver.TaskLaneTrace
 import Glb.Driver.Daemon
 
 open Glb.Driver
@@ -41,4 +42,5 @@ def main (args : List String) : IO UInt32 := do
   | ["router"] => loop stdin stdout ({} : Router.DSt) Router.step; return 0
   | ["store"] => loop stdin stdout ({} : Store.DSt) Store.step; return 0
   | ["nano"] => loop stdin stdout () Nano.step; return 0
+  | ["tltrace"] => loop stdin stdout (0 : Nat) TaskLaneTrace.step; return 0
   | _ => IO.eprintln "usage: driver <stream>"; return 2
